@@ -132,7 +132,9 @@ class Check:
         if self.broken:
             for b in self.broken:
                 print("ANALYSIS-BROKEN property=%s %s" % (self.pid, b))
-            return 2
+            if not new:
+                return 2
+            # a concrete violation was found as well: report it (exit 1); the broken rules are listed above
         if new:
             os.makedirs(REPLAY, exist_ok=True)
             for i, v in enumerate(new):
